@@ -349,6 +349,58 @@ def check_c18(tier):
     return rc
 
 
+def native_build_c19():
+    srcs = (glob.glob(os.path.join(REPO, "reproc++/src/*.cpp")) + glob.glob(os.path.join(REPO, "reproc++/include/reproc++/*.hpp"))
+            + glob.glob(os.path.join(REPO, "reproc++/include/reproc++/detail/*.hpp")) + [os.path.join(REPO, "reproc/include/reproc/reproc.h"), os.path.join(VERIF, "cxx/h_c19.cpp")])
+    key = file_hash(srcs) + "-c19"
+    out = os.path.join(BUILD, key)
+    exe = os.path.join(out, "h_c19")
+    if os.path.exists(exe):
+        return exe
+    if os.path.isdir(BUILD):
+        for d in os.listdir(BUILD):
+            if d.endswith("-c19") and d != key:
+                shutil.rmtree(os.path.join(BUILD, d), ignore_errors=True)
+    os.makedirs(out, exist_ok=True)
+    parallel([["g++", "-std=c++11", "-g", "-O1", "-fsanitize=address,undefined", "-fno-sanitize-recover=undefined", "-I", os.path.join(REPO, "reproc++/include"),
+               "-I", os.path.join(REPO, "reproc/include"), os.path.join(VERIF, "cxx/h_c19.cpp"), os.path.join(REPO, "reproc++/src/reproc.cpp"), "-o", exe]])
+    return exe
+
+
+def check_c19(tier):
+    t0 = time.time()
+    exe = native_build_c19()
+    sc = make_scratch_dir()
+    out = os.path.join(sc, "c19.json")
+    env = dict(os.environ)
+    env["ASAN_OPTIONS"] = "detect_leaks=1:abort_on_error=1"
+    env["UBSAN_OPTIONS"] = "halt_on_error=1:abort_on_error=1"
+    p = subprocess.run([exe, out], env=env, stdout=subprocess.DEVNULL, stderr=subprocess.PIPE)
+    viols = []
+    st = {"checks": 0, "violations": 0, "fields": {}, "first": [], "per_clause": {}, "c_calls_recorded": 0}
+    if p.returncode != 0 or not os.path.exists(out):
+        viols.append({"clause": "crash", "key": "h_c19|clause=crash", "msg": "the harness died (sanitizer report or signal): " + p.stderr.decode(errors="replace")[-600:].replace("\n", " | ")})
+    else:
+        st = json.load(open(out))
+        for v in st["first"]:
+            viols.append({"clause": v["clause"], "key": "h_c19|clause=%s" % v["clause"], "msg": v["msg"] + " (%d failing comparisons of this kind)" % st["per_clause"].get(v["clause"], 1)})
+        for c in st["per_clause"]:
+            if not any(v["clause"] == c for v in viols):
+                viols.append({"clause": c, "key": "h_c19|clause=%s" % c, "msg": "%d failing comparisons" % st["per_clause"][c]})
+    shutil.rmtree(sc, ignore_errors=True)
+    cov = {"states": st["c_calls_recorded"], "transitions": st["checks"], "traces_validated_against_impl": st["c_calls_recorded"],
+           "evaluations": st["c_calls_recorded"], "distinct_nontrivial": st["c_calls_recorded"],
+           "rule": "one evaluation = one call that reaches the recording fake of the C API through the unmodified reproc++ sources; the menus (every options field alone "
+                   "over its boundary values on three bases, shorthand/bool pairs, containers of 0..3 strings over a 9-string alphabet, every wrapper method x 11 C "
+                   "return values) are enumerated completely; transitions = field-level comparisons made",
+           "exhaustive": p.returncode == 0, "field_menus": st["fields"], "per_clause_failures": st["per_clause"],
+           "samples": [{"menu": "options field alone", "example": "base1 stop.2=(kill, INT_MAX)"}, {"menu": "return values", "values": [-2147483647, -22, -32, -110, -12, -11, -1, 0, 1, 137, 2147483647]}]}
+    rc = finish_native("C19", tier, "model_checking", cov, viols, time.time() - t0,
+                       ["the C layer is a recording fake: only the mapping done by reproc++ is judged", "menus are boundary values, not all 2^32 integers"], "h_c19")
+    print("C19 %s: %d C-layer calls recorded, %d comparisons, %d failing, %.1fs" % (tier, st["c_calls_recorded"], st["checks"], st["violations"], time.time() - t0))
+    return rc
+
+
 def make_scratch_dir():
     base = "/dev/shm" if os.path.isdir("/dev/shm") and os.access("/dev/shm", os.W_OK) else BUILD
     sc = os.path.join(base, "reproc-verif-n%d" % os.getpid())
@@ -360,6 +412,8 @@ def make_scratch_dir():
 def check(prop, tier):
     if prop == "C18":
         return check_c18(tier)
+    if prop == "C19":
+        return check_c19(tier)
     t0 = time.time()
     known = [e for e in load_known() if e.get("property") == prop and e.get("status") == "known"]
     known_keys = {e["key"]: e for e in known}
@@ -465,6 +519,8 @@ def check(prop, tier):
 def replay(path):
     r = json.load(open(path))
     prop = r["property"]
+    if r.get("harness") == "h_c19":
+        return check_c19("quick")
     if r.get("harness") == "h_c18":
         exe = native_build_c18()
         env = dict(os.environ)
@@ -494,6 +550,7 @@ def main():
         for v in sorted({v for hs in PROPS.values() for _, v, _ in hs}):
             build(v)
         native_build_c18()
+        native_build_c19()
         print("setup ok")
         return 0
     if cmd == "list":
